@@ -397,8 +397,12 @@ def run(rep, tier, seed, only=None):
 
             def poly(threads, tag):
                 out = os.path.join(P2, f"out_{tag}.vcf")
+                kw = {k: v for k, v in extra[0].items() if not k.startswith("_")}
                 with open(out, "w") as f:
-                    run_polyphase([pp["bam"]], vcf_in[0], ploidy=3, reference=pp["fasta"], output=f, write_command_line_header=False, threads=threads, **extra[0])
+                    if "_bam" in extra[0]:
+                        run_polyphase([extra[0]["_bam"]], vcf_in[0], ploidy=extra[0]["_ploidy"], output=f, write_command_line_header=False, threads=threads, **kw)
+                    else:
+                        run_polyphase([pp["bam"]], vcf_in[0], ploidy=3, reference=pp["fasta"], output=f, write_command_line_header=False, threads=threads, **kw)
                 return open(out).read()
 
             ref = poly(1, "t1")
@@ -410,9 +414,17 @@ def run(rep, tier, seed, only=None):
             vcf_in[0], extra[0] = pre_vcf, {"use_prephasing": True, "block_cut_sensitivity": 1}
             configs.append((pre_vcf, dict(extra[0]), poly(1, "t1pre")))
             vcf_in[0], extra[0] = pp["vcf"], {}
+            # third configuration: the repository's hand-made instance in which pre-phasings bridge blocks
+            rd = os.path.join(str(build.REPO), "tests", "data")
+            if os.path.exists(os.path.join(rd, "polyploid.cuts.vcf")) and os.path.exists(os.path.join(rd, "polyploid.cuts.bam")):
+                for B in (0, 1, 4):
+                    cuts_cfg = {"use_prephasing": True, "block_cut_sensitivity": B, "ignore_read_groups": True, "_ploidy": 4, "_bam": os.path.join(rd, "polyploid.cuts.bam")}
+                    configs.append((os.path.join(rd, "polyploid.cuts.vcf"), cuts_cfg, None))
             stock = alg.Pool
             for cvcf, cextra, cref in configs:
                 vcf_in[0], extra[0] = cvcf, cextra
+                if cref is None:
+                    cref = poly(1, "t1cfg")
                 for th in (2, 4):
                     runs += 1
                     if poly(th, f"stock{th}") != cref:
